@@ -38,6 +38,9 @@ def collect(tier: str, seed: int, work: core.Work) -> dict:
         for m in mism:
             sig = dict(m['rec'].get('sig', {}))
             sig.update(clause=m['clause'], expected=m['exp'], record=m['rec'])
+            # DeferredWrites is shared writer machinery: C11 judges the writers by what the readers
+            # recover; the helper's own step semantics are growth
+            sig['drift'] = 'Deferred'
             sigs.append(sig)
         rs = core.read_ndjson(p)
         samples.append({k: rs[len(rs) // 2][k] for k in ('a', 'res', 'hist')})
